@@ -8,10 +8,12 @@ D = "pyhms.demes."
 A = D + "abstract_deme.AbstractDeme."
 
 fn("ext.$QMC.random", params={"n": "int"}, returns="oarr", modifies=[("$qmc_draws", "o == self")], trusted=True,
+   ensures=[cl("n_points", "nrows(result) == ite(n > 0, n, 0)", tags="C12")],
    note="scipy.stats.qmc sampler: an n x d array of points of the unit cube (contents not modelled)")
 
 # what the constructor leaves and every metaepoch keeps (class invariant of the two sampling demes)
-macro("SamplerDeme", ["d"], "d._problem != None and WfProblem(d._problem) and d._history != None and d.sampler != None")
+macro("SamplerDeme", ["d"], "d._problem != None and WfProblem(d._problem) and d._history != None and d.sampler != None and d._pop_size >= 1 "
+      "and nrows(d.lower_bounds) == 1 and nrows(d.upper_bounds) == 1")
 
 
 def sampling_deme(mod, cls):
@@ -28,6 +30,7 @@ def sampling_deme(mod, cls):
                 cl("recorded_history_kept", "forall(lambda m: imp(0 <= m < old(len(self._history)), self._history[m] == old(self._history[m])))",
                    tags="C02 C06"),
                 cl("one_generation", "len(self._history[-1]) == 1 and fresh(self._history[-1]) and fresh(cur_pop(self))", tags="C05 C06"),
+                cl("configured_population_size", "len(cur_pop(self)) == self._pop_size and kind(cur_pop(self)) == 0", tags="C12"),
                 cl("all_evaluated_through_the_own_wrapper", "forall(lambda a: imp(0 <= a < len(cur_pop(self)), cur_pop(self)[a] != None "
                    "and cur_pop(self)[a].problem == self._problem and evaluated(cur_pop(self)[a])), pat=cur_pop(self)[a])", tags="C02 C03"),
                 cl("count_matches_clock", "counted(self) - old(counted(self)) >= clock() - old(clock()) and clock() >= old(clock())", tags="C03"),
